@@ -37,7 +37,7 @@ def nontrivial(pid, case, out):
 
 
 def correspondence(pid, tier, seed):
-    n_random = 3000 if tier == 'quick' else 40000
+    n_random = lib.size(3000, 40000, tier)
     cases = Q.generate(seed, n_random, with_sweep=True)
     outs = [Q.run_impl(c) for c in cases]
     items = [Q.case_coq(c, o) for c, o in zip(cases, outs)]
